@@ -699,13 +699,10 @@ fn main() {
 
     // ---- exhaustive status codes x kinds x scd_len window around the real SCD length (8 bytes)
     let scd8 = vec![0u8, 0, 3, 0, 0, 0, 10, 0];
-    let window: Vec<u16> = if args.thorough() { vec![4, 7, 8, 9] } else { vec![8] };
+    // both tiers: EVERY code x ALL five kinds x a window of scd_len values around 8
+    let window: Vec<u16> = if args.thorough() { vec![3, 4, 7, 8, 9, 12] } else { vec![7, 8, 9] };
     for code in 0..=65535u16 {
-        for (ki, kind) in KINDS.iter().enumerate() {
-            // quick: every code with one kind (rotating), all five kinds for a 1/16 subsample
-            if !args.thorough() && (code as usize) % 5 != ki && code % 16 != 3 {
-                continue;
-            }
+        for kind in KINDS.iter() {
             for l in &window {
                 do_case(&mut rep, &Req::AckF(code, *kind, *l, code ^ 0x5a5a, scd8.clone()), "status-sweep");
             }
@@ -716,7 +713,7 @@ fn main() {
     }
     rep.extra.insert(
         "status_sweep".into(),
-        json!({"codes": "0..=65535 (all)", "kinds": if args.thorough() { "all 5 for every code" } else { "1 of 5 rotating for every code, all 5 for every 16th code" }, "scd_len_window": window, "scd_bytes_present": 8}),
+        json!({"codes": "0..=65535 (all)", "kinds": "all 5 for every code", "exhaustive_over": "code x kind x scd_len window", "scd_len_window": window, "scd_bytes_present": 8}),
     );
 
     // ---- scd_len x bytes-present grid for every view (incl. scd_len not a multiple of 4)
@@ -761,7 +758,7 @@ fn main() {
             m = mutate(&mut rng, &m);
         }
         do_case(&mut rep, &Req::AckHex(m), "ack-mutated");
-        if i % 25 == 0 && b.len() <= 80 {
+        if i % 5 == 0 && b.len() <= 80 {
             for cut in 0..b.len() {
                 do_case(&mut rep, &Req::AckHex(b[..cut].to_vec()), "ack-truncated-every-offset");
             }
@@ -788,7 +785,7 @@ fn main() {
             m = mutate(&mut rng, &m);
         }
         do_case(&mut rep, &Req::Event(m), "event-mutated");
-        if i % 25 == 0 && b.len() <= 120 {
+        if i % 5 == 0 && b.len() <= 120 {
             for cut in 0..b.len() {
                 do_case(&mut rep, &Req::Event(b[..cut].to_vec()), "event-truncated-every-offset");
             }
